@@ -411,6 +411,17 @@ def main_native(E, R, command, testnet, paranoia, to_file, ln, ctor_raises):
 
 
 XPUB = "xpub661MyMwAqRbcFtXgS5sYJABqqG9YLmC4Q1Rdap9gSE8NqtwybGhePY2gZ29ESFjqJoCu1Rupje8YtGqsefD265TMg7usUDFdp6W1EGMcet8"
+XPRV_MAIN = "xprv9s21ZrQH143K3GJpoapnV8SFfukcVBSfeCficPSGfubmSFDxo1kuHnLisriDvSnRRuL2Qrg5ggqHKNVpxR86QEC8w35uxmGoggxtQTPvfUu"
+
+
+def _tprv():
+    """the testnet serialisation (version 04358394) of the same master key, built here from the BIP32 layout"""
+    from props import common as cm
+    raw = cm._b58decode(XPRV_MAIN)[:-4]
+    return cm.b58check_encode(bytes.fromhex("04358394") + raw[4:])
+
+
+TPRV = _tprv()
 
 
 # ------------------------------------------------------------------------------- end-to-end vectors
@@ -429,10 +440,22 @@ def cli_vector(E, R, argv, expect, api=None, pre_existing=None, file_arg=None):
         if pre_existing:
             for name in pre_existing:
                 open(os.path.join(td, name), "w").write("sentinel")
-        before = {n: open(os.path.join(td, n)).read() for n in os.listdir(td)}
+        def _snap():
+            out = {}
+            for root, dirs, files in os.walk(td):
+                for d in dirs:
+                    out[os.path.relpath(os.path.join(root, d), td) + os.sep] = "<directory>"
+                for f in files:
+                    fp = os.path.join(root, f)
+                    try:
+                        out[os.path.relpath(fp, td)] = open(fp, errors="replace").read()
+                    except OSError as e:
+                        out[os.path.relpath(fp, td)] = "<unreadable: %s>" % e
+            return out
+        before = _snap()
         p = subprocess.run([sys.executable, "-m", "btc_hd_wallet"] + list(argv), cwd=td, capture_output=True, text=True,
                            env=dict(os.environ, PYTHONPATH=repo), timeout=300)
-        after = {n: open(os.path.join(td, n)).read() for n in os.listdir(td)}
+        after = _snap()
         for n, content in before.items():
             E.check(after.get(n) == content, "an existing file is never overwritten")
         new = {n: c for n, c in after.items() if n not in before}
@@ -568,6 +591,24 @@ def vectors():
     add(S + ["--file", "w.json"], "any", api=("seed", SEED, {}), file_arg="w.json")
     add(["--paranoia"] + S + ["--bogus"], "any", api=("seed", SEED, {}))
     # passphrases with outer blanks / non-normalised characters / option-like text, with and without --paranoia
+    # a passphrase option written before the sub-command: refused or honoured, never silently replaced by the default
+    for pw in ("TREZOR", "p w"):
+        add(["--interval", "0", "1", "--password", pw, "from-mnemonic", MNEM], "any", api=("mnemonic", MNEM, {"password": pw}))
+        add(["--paranoia", "--interval", "0", "1", "--password", pw, "from-entropy-hex", ENTH], "any", api=("entropy", ENTH, {"password": pw}))
+        add(["--interval", "0", "1", "--password", pw, "from-mnemonic", MNEM, "--password", "other"], "any",
+            api=("mnemonic", MNEM, {"password": "other"}))
+    # sentences of an accepted word count that are not valid BIP39 (bad checksum, non-words): the API accepts them, so does the CLI,
+    # and stdout is exactly the JSON
+    for bad in (" ".join(["abandon"] * 12), " ".join(["zzz"] * 12), MNEM.replace("about", "above")):
+        add(["--interval", "0", "1", "from-mnemonic", bad], "ok", api=("mnemonic", bad, {}))
+        add(["--paranoia", "--interval", "0", "1", "from-mnemonic", bad], "ok", api=("mnemonic", bad, {}))
+    # a target that passes the argument checks but cannot be opened: the run fails and emits nothing (in particular not the wallet on stdout)
+    for tgt in ("missing_dir/w.json", "newdir/"):
+        add(["--paranoia", "--file", tgt, "--interval", "0", "1"] + S, "any", api=("seed", SEED, {}), file_arg=tgt)
+        add(["--file", tgt, "--interval", "0", "1"] + S, "any", api=("seed", SEED, {}), file_arg=tgt)
+    # the network of a wallet built from an extended key is the key's own (testnet key without --testnet, mainnet key with it)
+    add(["--interval", "0", "1", "from-master-xprv", TPRV], "ok", api=("xprv", TPRV, {}))
+    add(["--testnet", "--interval", "0", "1", "from-master-xprv", XPRV_MAIN], "ok", api=("xprv", XPRV_MAIN, {}))
     for pw in (" correct horse ", "\u00e9\u212b", "--paranoia", "x" * 300):
         pwarg = ["--password=" + pw] if pw.startswith("-") else ["--password", pw]
         for par in ([], ["--paranoia"]):
